@@ -59,7 +59,7 @@ void gen_hist_ops(Rng& g, Rng& fr, const std::string& prop, unsigned nops, bool 
       case OP_NEW_TAG: case OP_BUILD_TAG: o.c = gen_u64(g); n_tag++; break;
       case OP_PUSH_MANY: { static const uint64_t C[] = {3, 8, 22, 23, 24, 25, 64, 254, 255, 256, 257, 1000, 3000}; o.c = (prop == "C03" && g.chance(1, 6)) ? g.range(65534, 65537) : C[g.below(sizeof C / sizeof C[0])]; if (nops > 40 && o.c > 300) o.c = 300; o.c -= 1; break; }
       case OP_SET: case OP_REPLACE: case OP_GET: o.c = g.below(64); break;
-      case OP_MAP_ADD: case OP_ADD_CHUNK: if ((prop == "C12" || prop == "C03") && nops <= 40 && g.chance(1, 12)) { static const uint64_t C[] = {3, 30, 129, 130, 300, 1000, 3000}; o.d |= (C[g.below(7)] - 1) << 4; } break;
+      case OP_MAP_ADD: case OP_ADD_CHUNK: if ((prop == "C12" || prop == "C03") && nops <= 40 && g.chance(1, 12)) { static const uint64_t C[] = {3, 22, 23, 24, 30, 129, 130, 254, 255, 256, 300, 1000, 3000}; o.d |= (C[g.below(13)] - 1) << 4; } break;
       case OP_SETVAL: { if (g.chance(1, 2)) o.c = gen_u64(g); else { GenProfile gp; MV t; do { Rng r2(g.next(), "f"); t = gen_mv(r2, gp, 99); } while (t.kind != MK_FLOAT); o.c = t.val; } break; }
       case OP_LOAD_RAW: o.c = g.next(); if ((prop == "C13" || prop == "C03" || prop == "C04") && g.chance(1, 2)) { o.d |= 8; deep_follow = 3; } else o.d &= ~8ull; break;
       default: break;
